@@ -1,4 +1,5 @@
 import OdfProofs.TableOps6
+import OdfProofs.TableBulk
 import OdfModel.TableStep
 
 /-! One step and whole histories: the model refines the grid. -/
@@ -57,6 +58,12 @@ theorem step_refines (t : Tbl) (h : Inv t) (hfit : GridFit (absT t)) (op : Op) (
   | deleteColumn x =>
     obtain ⟨t', e, _, _, _, a, i⟩ := deleteColumn_ok t h x
     exact ⟨t', e, a, i⟩
+  | setCells x y m =>
+    obtain ⟨t', e, i, a⟩ := setCells_ok t h x y m hv
+    exact ⟨t', e, a, fun _ => i⟩
+  | setValues x y m =>
+    obtain ⟨t', e, i, a⟩ := setValues_ok t h x y m
+    exact ⟨t', e, a, fun _ => i⟩
 
 end Odf.Table
 
@@ -116,6 +123,21 @@ theorem fit_editRowN (g : Grid) (hfit : GridFit g) (yn : Nat) (F : List Nat → 
     · exact Or.inl h
     · exact Or.inr (Or.inl h)
   · exact Or.inr (Or.inr h)
+
+theorem fit_setCells (g : Grid) (hfit : GridFit g) (x y : Int) (m : List (List (Nat × Nat))) :
+    GridFit (Grid.setCells g x y m) := by
+  unfold Grid.setCells
+  simp only
+  generalize Grid.norm y (Grid.height g) = yn
+  generalize Grid.norm x g.ncols = xn
+  induction m generalizing g yn with
+  | nil => exact hfit
+  | cons line rest ih =>
+    simp only [List.foldl_cons]
+    by_cases hl : line = []
+    · simp only [hl, if_true]; exact ih g hfit (yn + 1)
+    · simp only [hl, if_false]
+      exact ih _ (by unfold Grid.setLine; exact fit_editRowN g hfit _ _) (yn + 1)
 
 theorem fit_gstep (g : Grid) (hfit : GridFit g) (op : Op) : GridFit (gstep g op) := by
   cases op with
@@ -203,6 +225,12 @@ theorem fit_gstep (g : Grid) (hfit : GridFit g) (op : Op) : GridFit (gstep g op)
         omega
       · omega
     · exact hfit
+  | setCells x y m =>
+    simp only [gstep]
+    exact fit_setCells g hfit x y m
+  | setValues x y m =>
+    simp only [gstep, Grid.setValues]
+    exact fit_setCells g hfit x y _
 
 /-- **every history**: from any coherent table whose rows fit its columns, every finite
     sequence of valid operations succeeds, and what the table denotes is exactly what the same
